@@ -95,6 +95,8 @@ def parse_results(path, unit_file_names):
             status = e['cProverStatus']
         if e.get('messageType') in ('ERROR', 'WARNING'):
             msgs.append(e.get('messageText', ''))
+    if res is None and any('out of memory' in m for m in msgs):
+        raise Undecided('memory-limit', ' | '.join(msgs[-3:]))
     if res is None:
         raise Undecided('tool-error', 'no result array; status=%s; %s' % (status, ' | '.join(msgs[-5:])))
     obs = []
